@@ -52,14 +52,22 @@ def path_types(bp, x, upto=None):
     """type names X is known to be an instance of on this path (positive isinstance tests,
     also inside `a and b`)"""
     out = None
+    neg = set()
     for st in bp.steps:
         if upto is not None and st is upto:
             break
-        if st[0] == 'T' and st[2]:
+        if st[0] == 'T':
             it = isinstance_types(st[1])
             if it and it[0] == x:
-                out = set(it[1]) if out is None else (out & it[1] or out)
-    return out or set()
+                if st[2]:
+                    out = set(it[1]) if out is None else (out & it[1] or out)
+                else:
+                    neg |= it[1]
+    if out is None:
+        return set()
+    if not out - neg:
+        return {'<infeasible>'}
+    return out - neg
 
 
 def local_helpers(fn):
@@ -153,6 +161,21 @@ def check_walker(fn, what, kind, bad):
                 if inner is None:
                     bad('C15-lifo', f'{what}: several elements are pushed without `reversed` '
                                     f'({P.tfmt(arg[0])[:120]}): siblings would come out right to left')
+        # de-duplication is by identity: the visited set holds id()s, never the nodes themselves
+        # (ParsedObject.__eq__/__hash__ are structural: equal twins would be dropped)
+        vis_sets = {e[2] for e in bp.events() if e[1] == 'call:add'}
+        for e in bp.events():
+            if e[1] == 'call:add' and not (len(e[3]) == 1 and is_call(e[3][0], 'id')):
+                bad('C15-dedup-identity', f'{what}: the visited set records {P.tfmt(e[3][0]) if e[3] else "?"} '
+                                          f'instead of id(node): de-duplication becomes structural '
+                                          f'(distinct but equal objects are skipped, hashing recurses)')
+        for st in bp.steps:
+            if st[0] == 'T' and isinstance(st[1], tuple) and st[1][:1] == ('CMP',) and st[1][1] in (('In',), ('NotIn',)) \
+                    and (st[1][3] in vis_sets or (isinstance(st[1][3], tuple) and st[1][3][:1] == ('OBJ',)
+                                                   and 'visit' in st[1][3][1])) \
+                    and not is_call(st[1][2], 'id'):
+                bad('C15-dedup-identity', f'{what}: membership in the visited set is tested on '
+                                          f'{P.tfmt(st[1][2])} instead of id(node)')
         # identity de-duplication only for expandable nodes
         for st in bp.steps:
             if st[0] == 'T' and isinstance(st[1], tuple) and st[1][:2] == ('CMP', ('In',)) \
@@ -263,6 +286,8 @@ def check_traverse(fn, what, bad):
             bad('C15-events', f'{what}: the finished marker is pushed after the children: the finished '
                               f'event would come before the children\'s events')
         types = path_types(bp, CHILD)
+        if types == {'<infeasible>'}:
+            continue
         kids = [(k, a) for i, (k, a, st) in enumerate(ps) if i not in marker]
         if any((not s[2]) and is_call(s[1], 'hasattr') and s[1][2:] == (CHILD, ('CONST', "'_fields'"))
                for s in bp.tests()):
@@ -327,4 +352,165 @@ def check_traverse(fn, what, bad):
         if need not in kinds:
             bad('C15-events', f'{what}: no branch expands {need} nodes')
     # initial record
+    return stats
+
+
+# ------------------------------------------------------------------ transform (C16)
+def mentions(t, x):
+    return any(s == x for s in P.subterms(t))
+
+
+def check_transform(fns, what, bad):
+    if 'transform' not in fns or '_transform' not in fns:
+        raise AnalysisError(f'{what}: anchor transform/_transform vanished')
+    tf, rt = fns['transform'], fns['_transform']
+    stats = {'paths': 0}
+    # ---- the recursive rebuild
+    params = [a.arg for a in rt.args.args]
+    if len(params) != 2:
+        raise AnalysisError(f'{what}: _transform signature changed')
+    N, CB = ('PARAM', params[0]), ('PARAM', params[1])
+    E = P.Enumerator()
+    paths = E.function(rt)
+    stats['paths'] += len(paths)
+    self_call = lambda arg: ('CALL', ('VAR', rt.name), arg, CB)
+    kinds = set()
+    for p in paths:
+        all_steps = list(p.steps)
+        for s in p.steps:
+            if s[0] == 'LOOP':
+                for bp in s[2]:
+                    all_steps += bp.steps
+        # purity: nothing reachable from the input node is stored into or mutated
+        for s in all_steps:
+            if s[0] == 'E' and s[1] in ('attrstore', 'substore') and mentions(s[2], N) \
+                    and not (isinstance(s[2], tuple) and s[2][0] == 'SUB' and s[2][1][:1] == ('OBJ',)):
+                bad('C16-pure', f'{what}: _transform stores into the input tree ({P.tfmt(s[2])})')
+            if s[0] == 'E' and s[1].startswith('call:') and isinstance(s[2], tuple) and s[2][:1] != ('OBJ',) \
+                    and mentions(s[2], N):
+                bad('C16-pure', f'{what}: _transform mutates the input tree ({P.tfmt(s[2])}.{s[1][5:]})')
+            for t in ([s[1]] if s[0] == 'X' else []):
+                if isinstance(t, tuple) and t[:2] == ('CALL', ('VAR', 'setattr')) and len(t) > 2 and mentions(t[2], N):
+                    bad('C16-pure', f'{what}: _transform sets an attribute of the input node')
+        if p.end[0] != 'return':
+            bad('C16-shape', f'{what}: _transform has a path without return')
+            continue
+        ret = p.end[1]
+        tests = p.tests()
+        pos = [isinstance_types(t[1]) for t in tests if t[2] and isinstance_types(t[1])]
+        neg = [isinstance_types(t[1]) for t in tests if not t[2] and isinstance_types(t[1])]
+        if any(x == N and 'list' in ty for x, ty in pos):
+            kinds.add('list')
+            want = ('COMP', 'ListComp', self_call(('ITEM', 'x')), ('GEN', 'x', N))
+            ok = isinstance(ret, tuple) and ret[:2] == ('COMP', 'ListComp') and len(ret) == 4 \
+                and ret[3][2] == N and substitute(ret[2], {('ITEM', ret[3][1]): ('ITEM', 'x')}) == want[2]
+            if not ok:
+                bad('C16-lists', f'{what}: a list is rebuilt as {P.tfmt(ret)}, expected '
+                                 f'[_transform(x, callback) for x in node]')
+        elif any(x == N and 'ParsedObject' in ty for x, ty in neg):
+            kinds.add('leaf')
+            if ret != N:
+                bad('C16-leaves', f'{what}: a non-object leaf is returned as {P.tfmt(ret)}, expected unchanged')
+        elif any(x == N and 'ParsedObject' in ty for x, ty in pos):
+            kinds.add('object')
+            loops = [s for s in p.steps if s[0] == 'LOOP']
+            if len(loops) != 1:
+                raise AnalysisError(f'{what}: _transform object branch has {len(loops)} loops')
+            lp = loops[0]
+            if not (isinstance(lp[1], ast.For) and E.val(lp[1].iter, {params[0]: N}) == ('ATTR', N, '_fields')):
+                bad('C16-fields', f'{what}: the rebuild does not iterate node._fields')
+            FIELD = ('ITEM', ('ATTR', N, '_fields'))
+            WAS = ('CALL', ('VAR', 'getattr'), N, FIELD)
+            NOW = self_call(WAS)
+            upd = None
+            for bp in lp[2]:
+                for e in bp.events('substore'):
+                    upd = e[2][1]
+                    if e[2][2] != FIELD or e[3] != NOW:
+                        bad('C16-fields', f'{what}: field update is {P.tfmt(e[2])} = {P.tfmt(e[3])}, expected '
+                                          f'updates[field] = _transform(getattr(node, field), callback)')
+                    guard = [t for t in bp.tests() if t[1] in (('CMP', ('IsNot',), NOW, WAS), ('CMP', ('IsNot',), WAS, NOW))
+                             and t[2]] + [t for t in bp.tests() if t[1] in (('CMP', ('Is',), NOW, WAS), ('CMP', ('Is',), WAS, NOW)) and not t[2]]
+                    if not guard:
+                        bad('C16-fields', f'{what}: a field is recorded as changed without the identity test '
+                                          f'`now is not was`')
+            if upd is None:
+                bad('C16-fields', f'{what}: transformed children are never recorded')
+                continue
+            # post-order: the callback is applied last, to the rebuilt node
+            changed = [t for t in tests if t[1] == upd]
+            if not changed:
+                raise AnalysisError(f'{what}: no test on the update table after the field loop')
+            if changed[0][2]:
+                want = ('CALL', CB, ('CALL', ('ATTR', N, '_replace'), ('KW', None, upd)))
+            else:
+                want = ('CALL', CB, N)
+            if ret != want:
+                bad('C16-postorder', f'{what}: the object branch returns {P.tfmt(ret)}, expected {P.tfmt(want)} '
+                                     f'(callbacks run on the node rebuilt from its transformed children)')
+            # nothing is called on the node before the loop
+            idx = p.steps.index(lp)
+            for s in p.steps[:idx]:
+                for t in ([s[3]] if s[0] == 'E' else [s[1]] if s[0] == 'X' else []):
+                    if any(isinstance(x, tuple) and x[:2] == ('CALL', CB) for x in P.subterms(t)):
+                        bad('C16-postorder', f'{what}: the callback is applied before the children are transformed')
+    for k in ('list', 'leaf', 'object'):
+        if k not in kinds:
+            bad('C16-shape', f'{what}: _transform has no branch for {k} nodes')
+    # ---- the callback chain
+    inner = [n for n in tf.body if isinstance(n, ast.FunctionDef)]
+    if len(inner) != 1:
+        raise AnalysisError(f'{what}: transform() no longer wraps the callbacks in one local function')
+    cb = inner[0]
+    vararg = tf.args.vararg.arg if tf.args.vararg else None
+    if vararg is None:
+        raise AnalysisError(f'{what}: transform() signature changed')
+    E2 = P.Enumerator()
+    cps = E2.function(cb)
+    stats['paths'] += len(cps)
+    loops = [s for p in cps for s in p.steps if s[0] == 'LOOP']
+    if not loops:
+        raise AnalysisError(f'{what}: callback chain has no loop')
+    lp = loops[0]
+    if not (isinstance(lp[1], ast.For) and isinstance(lp[1].iter, ast.Name) and lp[1].iter.id == vararg):
+        bad('C16-order', f'{what}: callbacks are not applied in the order given '
+                         f'(`for f in {ast.unparse(lp[1].iter)}`)')
+    for bp in lp[2]:
+        muts = [e for e in bp.events() if e[1].startswith('call:') or e[1] in ('attrstore', 'substore')]
+        calls = [e for e in bp.events('assign') if isinstance(e[3], tuple) and e[3][:1] == ('CALL',)
+                 and e[3][1] == ('ITEM', ('VAR', vararg))]
+        if len(calls) != 1:
+            bad('C16-once', f'{what}: a callback is applied {len(calls)} times per node')
+            continue
+        NEW = calls[0][3]
+        PREV = NEW[2] if len(NEW) == 3 else None
+        for e in muts:
+            if e[1] == 'call:update' and e[2] == ('ATTR', NEW, '_metadata') and e[3] == (('ATTR', PREV, '_metadata'),):
+                need = {
+                    'node is not prev': any(t[2] and t[1] in (('CMP', ('IsNot',), NEW, PREV), ('CMP', ('IsNot',), PREV, NEW))
+                                            for t in bp.tests()),
+                    'isinstance(prev, ParsedObject)': any(t[2] and isinstance_types(t[1]) == (PREV, {'ParsedObject'}) for t in bp.tests()),
+                    'isinstance(node, ParsedObject)': any(t[2] and isinstance_types(t[1]) == (NEW, {'ParsedObject'}) for t in bp.tests()),
+                    'not node._metadata': any((not t[2]) and t[1] == ('ATTR', NEW, '_metadata') for t in bp.tests()),
+                }
+                for k, ok in need.items():
+                    if not ok:
+                        bad('C16-metadata', f'{what}: metadata is copied onto a callback result without the '
+                                            f'guard `{k}`')
+            else:
+                bad('C16-pure', f'{what}: the callback chain mutates {P.tfmt(e[2])} ({e[1]}); only the '
+                                f'replacement returned by a callback may receive metadata')
+        if not muts:
+            pass
+    copies = [e for bp in lp[2] for e in bp.events() if e[1] == 'call:update']
+    if not copies:
+        bad('C16-metadata', f'{what}: a replacement without metadata of its own never receives the '
+                            f'position metadata of the node it stands for')
+    # transform() hands the tree and the chain to the rebuild
+    E3 = P.Enumerator()
+    for p in E3.function(tf):
+        if p.end[0] == 'return' and any(t[2] for t in p.tests()):
+            want = ('CALL', ('VAR', rt.name), ('PARAM', tf.args.args[0].arg), ('LOCALDEF', cb.name))
+            if p.end[1] != want:
+                bad('C16-shape', f'{what}: transform returns {P.tfmt(p.end[1])}')
     return stats
